@@ -310,13 +310,15 @@ impl<'tcx> TyGenContext<'_, 'tcx> {
         err_ty: Option<&hir::OutType>,
         header: &mut Header,
     ) -> String {
+        // Zero-sized structs have no member. A disabled struct has no lowered fields either, but it is not
+        // zero-sized: keep it, so that `gen_ty_name` reports the use of a disabled type.
         let ok_ty = ok_ty.filter(|t| {
             let Type::Struct(s) = t else {
                 return true;
             };
             match s.resolve(self.tcx) {
-                ReturnableStructDef::Struct(s) => !s.fields.is_empty(),
-                ReturnableStructDef::OutStruct(s) => !s.fields.is_empty(),
+                ReturnableStructDef::Struct(s) => !s.fields.is_empty() || s.attrs.disable,
+                ReturnableStructDef::OutStruct(s) => !s.fields.is_empty() || s.attrs.disable,
                 _ => unreachable!("unknown AST/HIR variant"),
             }
         });
@@ -326,8 +328,8 @@ impl<'tcx> TyGenContext<'_, 'tcx> {
                 return true;
             };
             match s.resolve(self.tcx) {
-                ReturnableStructDef::Struct(s) => !s.fields.is_empty(),
-                ReturnableStructDef::OutStruct(s) => !s.fields.is_empty(),
+                ReturnableStructDef::Struct(s) => !s.fields.is_empty() || s.attrs.disable,
+                ReturnableStructDef::OutStruct(s) => !s.fields.is_empty() || s.attrs.disable,
                 _ => unreachable!("unknown AST/HIR variant"),
             }
         });
